@@ -26,4 +26,10 @@ CLAIMED = {
   "text": "Sequential: Goom.tla keeps one cursor per stub (default and each condition) in both the mechanism and the requirement layer; TLC checks every call's result against 'k-th selection returns element min(k,n)' and all histories of Return/Returns/When/Call/Reset to depth 3/4 plus random call strings of length 14 are replayed on the real API. Concurrent: Seq.tla has the three atomic steps of BaseMatcher.Result as separate actions; TLC checks range, per-caller monotonicity, real-time stickiness of the last element and real-time monotonicity over every interleaving (2-3 callers), prints every complete interleaving, and the driver replays each one deterministically on real goroutines through the matcher.loaded hook comparing every returned element; racing free-running callers under the race detector record start/end tickets and TLC accepts the trace iff some interleaving of the unlogged Load/Add steps explains it (a corrupted copy must be rejected on every run).",
   "note": "Trusted: TLC, the gate scheduler (one goroutine runs at a time; 3 s step timeout is exit 2, not a violation), ticket ordering (overlapping calls are treated as concurrent, which only makes the check more permissive). Requires the verif hooks (matcher.loaded / matcher.added).",
  },
+ "C20": {
+  "ref": "DESIGN.md §4 C20",
+  "technique": "TLA+ spec StubAlloc.tla model-checked with TLC; every interleaving of the lock-free fallback replayed on the real allocator through gate hooks; recorded regions validated by TLC (Trace_Stub.tla)",
+  "text": "StubAlloc.tla models Acquire: the mmap path as a fresh-region action and the reserve fallback as its two atomic steps (load; add+checks). TLC checks pairwise disjointness, containment in the reserve, size and no-overrun over every interleaving of 2-3 processes x requests x sizes with the primary path succeeding or failing, prints every complete interleaving of the fallback, and an in-package driver replays each on the real acquireFromHolder (reserve shrunk to R units so exhaustion is reached) through the holder.loaded hook comparing every granted offset / error. Free-running goroutines request through public Acquire and the fallback up to exhaustion; each region is written through stub.Write, executed, looked up in /proc/self/maps, and TLC evaluates StubAlloc's invariants on the recorded regions (an overlapping copy must be rejected).",
+  "note": "Trusted: TLC, the gate scheduler, rank compression of addresses (order preserving). The mmap path's freshness is the kernel's; we check disjointness of what it returned. Requires the verif hooks.",
+ },
 }
